@@ -566,3 +566,38 @@ func DeferCloseBad(mk func() (*closable, error), try func(*closable) bool, adopt
 	k.Close()
 	return adopt()
 }
+
+// ---- responses received from elsewhere are not rewritten ----
+
+type answerOutput struct{ KeyId *string }
+
+func RewriteOk(ask func() (*answerOutput, error), name string) (*answerOutput, error) {
+	own := &answerOutput{}
+	own.KeyId = &name
+	_ = own
+	return ask()
+}
+
+func RewriteBad(ask func() (*answerOutput, error), name string) (*answerOutput, error) {
+	resp, err := ask()
+	if err == nil && resp != nil {
+		resp.KeyId = &name
+	}
+	return resp, err
+}
+
+// ---- SDK wire logging ----
+
+type sdkConfig struct {
+	ClientLogMode uint64
+	Region        string
+}
+
+func SdkLogOk(cfg sdkConfig) sdkConfig { cfg.Region = "r"; return cfg }
+
+func SdkLogBad(cfg sdkConfig, debug bool) sdkConfig {
+	if debug {
+		cfg.ClientLogMode |= 3
+	}
+	return cfg
+}
